@@ -51,7 +51,7 @@ def campaign(c):
     # eth::frame wire order, eth::from_ip
     for i in range(30 if c.quick else 500):
         r = c.rng.fork('frame%d' % i)
-        src_mac, dst_mac, et, pl = r.bytes(6), r.bytes(6), r.choice([0x0800, 0x86dd, 0x8100, r.below(65536)]), r.bytes(r.below(40))
+        src_mac, dst_mac, et, pl = r.bytes(6), r.bytes(6), r.choice([0x0800, 0x86dd, 0x8100, 0, 1, 46, 1499, 1500, 1501, 1536, 65535, r.below(65536), r.below(2048)]), r.bytes(r.below(40))
         ipn = r.below(2 ** 32)
         prog = ('import eth;\nimport ipv4;\neth::frame("|%s|", "|%s|", ethertype: %d, "|%s|");\n'
                 'eth::frame(eth::from_ip(%s), eth::BROADCAST);\n' % (src_mac.hex(), dst_mac.hex(), et, pl.hex(), netscen.ip(ipn))).encode()
